@@ -96,13 +96,31 @@ def extract(config, repo=None, quiet=True):
     out = facts_dir(config, repo)
     pkgs, feats, expected, extra_flags = config_spec(config)
     marker = os.path.join(out, ".complete")
-    if os.path.exists(marker) and all(os.path.exists(os.path.join(out, c + ".json")) for c in expected):
+
+    def complete():
+        return os.path.exists(marker) and all(os.path.exists(os.path.join(out, c + ".json")) for c in expected)
+    if complete():
         return out
+    tgt = os.path.join(CACHE, "target", "nodebug" if "nodebug" in config else "dbg")
+    os.makedirs(tgt, exist_ok=True)
+    # the cargo target directory is shared by every check process: extractions are serialised with an exclusive
+    # file lock (checks of several properties may run concurrently and must not disturb each other's build)
+    import fcntl
+    lockf = open(os.path.join(tgt, ".verif-extract.lock"), "w")
+    fcntl.flock(lockf, fcntl.LOCK_EX)
+    try:
+        if complete():          # another process extracted the same tree while we waited
+            return out
+        return _extract_locked(config, repo, out, tgt, pkgs, feats, expected, extra_flags, marker, quiet)
+    finally:
+        fcntl.flock(lockf, fcntl.LOCK_UN)
+        lockf.close()
+
+
+def _extract_locked(config, repo, out, tgt, pkgs, feats, expected, extra_flags, marker, quiet):
     if os.path.exists(out):
         shutil.rmtree(out)
     os.makedirs(out)
-    tgt = os.path.join(CACHE, "target", "nodebug" if "nodebug" in config else "dbg")
-    os.makedirs(tgt, exist_ok=True)
     # defeat cargo's freshness cache for the workspace members
     fp = os.path.join(tgt, "debug", ".fingerprint")
     if os.path.isdir(fp):
@@ -138,10 +156,13 @@ def extract(config, repo=None, quiet=True):
     return out
 
 
-def prune_cache(keep=6):
+def prune_cache(keep=12, min_age_s=3600):
+    """drop old fact directories, never one that a concurrent check could still be reading"""
     base = os.path.join(CACHE, "facts")
     if not os.path.isdir(base):
         return
+    now = time.time()
     ds = sorted((os.path.getmtime(os.path.join(base, d)), d) for d in os.listdir(base))
-    for _m, d in ds[:-keep]:
-        shutil.rmtree(os.path.join(base, d), ignore_errors=True)
+    for m, d in ds[:-keep]:
+        if now - m > min_age_s:
+            shutil.rmtree(os.path.join(base, d), ignore_errors=True)
